@@ -741,6 +741,14 @@ class Engine:
             return self._stream_descr(it.view)
         if isinstance(it, GenStreamV):
             return it.length, it.elem
+        if isinstance(it, NdArrV):
+            # numpy iteration reads the live buffer: element k is the content at the moment it is read
+            n = st.heap[it.oid]['n']
+
+            def el(k, it=it):
+                cur = getattr(self, 'live_state', None) or st
+                return [Out(smt.T, value=IntV(cur.heap[it.oid]['f'](k)))]
+            return n, el
         if isinstance(it, (ObjV, OpaqueV)):
             h = self.ctx_hook('iter_obj_descr', st, it)
             if h is not None:
@@ -915,6 +923,7 @@ class Engine:
         else:
             base = hav.fork(k < length) if length is not None else hav.fork()
             if self.feasible(base):
+                self.live_state = base      # iteration over a live buffer reads the current heap
                 for o in elem(k):
                     for stb, side in self.branch(base.fork(*o.facts), o.cond):
                         if not side:
@@ -1062,6 +1071,7 @@ class Engine:
             return [(st, self.module_attr(recv, attr))]
         if isinstance(recv, (ListV, SymSeqV, TupleV, CellListV, BuiltinV, ClassV, ClosureV, FnV, ObjV,
                              StageV, IterV, StreamV, ExcV, StrV, KeyV, OpaqueV, DictV, DSTupleV, SymDictV, SuperV, QueueV, IntDictV,
+                             RngV, NdArrV,
                              GenStreamV)):
             if isinstance(recv, ClassV) and attr == '__name__':
                 return [(st, OpaqueStrV())]
@@ -1348,6 +1358,10 @@ class Engine:
             h = self.ctx_hook('stage_method', st, recv, name, args, kwargs)
             if h is not None:
                 return h
+        if isinstance(recv, RngV):
+            h = self.ctx_hook('rng_method', st, recv, name, args, kwargs)
+            if h is not None:
+                return h
         if isinstance(recv, QueueV):
             return self.queue_method(recv, name, args, kwargs, st, node)
         if isinstance(recv, OpaqueV):
@@ -1496,6 +1510,8 @@ class Engine:
             return [(st, IntV(x.card))]
         if isinstance(x, SymDictV):
             return [(st, IntV(x.n))]
+        if isinstance(x, NdArrV):
+            return [(st, IntV(st.heap[x.oid]['n']))]
         h = self.ctx_hook('len_hook', st, x)
         if h is not None:
             return h
@@ -2396,6 +2412,23 @@ class NumFnV(Val):
 
     def __init__(self, t):
         self.t = t
+
+
+class NdArrV(Val):
+    """a 1-d numpy integer array object in the heap: {'n': length, 'f': index -> value, 'inv': inverse or None}"""
+    kind = 'ndarray'
+
+    def __init__(self, oid):
+        self.oid = oid
+
+
+class RngV(Val):
+    """a random generator object (np.random.RandomState instance or the np.random module)"""
+    kind = 'rng'
+
+    def __init__(self, t, is_global=False):
+        self.t = t
+        self.is_global = is_global
 
 
 class EmptyDictV(Val):
